@@ -2,6 +2,7 @@ package c16
 
 import (
 	"fmt"
+	"runtime/debug"
 	"testing"
 
 	"gopkg.in/typ.v4/lists"
@@ -22,11 +23,19 @@ type WCase struct {
 	Rounds    int64  `json:"rounds"`
 	GrowEvery int64  `json:"grow_every,omitempty"`
 	Burst     int    `json:"burst,omitempty"`
+	// GCPercent > 0: the case runs under debug.SetGCPercent(GCPercent) (restored afterwards). The linked-list Queue
+	// allocates one element per Enqueue while almost nothing is live, so with the default setting a case of 2^32
+	// rounds spends most of its time in tens of thousands of collections of an empty heap. Only the one-case-per-
+	// process unit C16.wrap32 uses it (the setting is global to the process).
+	GCPercent int `json:"gc_percent,omitempty"`
 }
 
 func RunWrap(c WCase) pbt.Outcome {
 	if c.Window < 0 || c.Window > 1<<20 || c.Rounds < 0 || c.Burst < 0 || c.Burst > 1<<20 {
 		return pbt.Fail("malformed case: %+v", c)
+	}
+	if c.GCPercent > 0 {
+		defer debug.SetGCPercent(debug.SetGCPercent(c.GCPercent))
 	}
 	var msg string
 	var evals int64
@@ -42,12 +51,7 @@ func RunWrap(c WCase) pbt.Outcome {
 		return pbt.Fail("%s/uint64, window %d: %s", c.Kind, c.Window, msg)
 	}
 	out := pbt.Outcome{NonTrivial: c.Rounds >= 1<<16, Labels: []string{"kind=" + c.Kind, fmt.Sprintf("window=%d", c.Window)}}
-	if evals > 1<<31-1 {
-		out.Evals = 1<<31 - 1
-		out.Labels = append(out.Labels, "evaluations-saturated-at-2^31-1")
-	} else {
-		out.Evals = int(evals)
-	}
+	out.Evals = int(evals)
 	for _, p := range []int{16, 20, 24, 32} {
 		if c.Rounds+int64(c.Window) > 1<<p {
 			out.Labels = append(out.Labels, fmt.Sprintf("values-through-one-container>2^%d", p))
@@ -256,12 +260,13 @@ var specWrap16 = pbt.Register(&pbt.Spec[WCase]{
 // More than 2^32 values through one container: thorough tier only (minutes for the linked-list Queue).
 var specWrap32 = pbt.Register(&pbt.Spec[WCase]{
 	Property: "C16", Name: "C16.wrap32", Rule: "thorough tier only, two cases (one per shard): a Queue holding 2..3 values and a Stack holding 2..3 values, R = 2^32 + 2^20 rounds each (no growth after the first values: " +
-		"free-running counters of the implementation pass 2^32 while the container is non-empty, and Len/Peek are looked at right then); " + ruleWrap + "non-trivial = at least 2^16 rounds",
+		"free-running counters of the implementation pass 2^32 while the container is non-empty, and Len/Peek are looked at right then; the Queue case runs under debug.SetGCPercent(1600), " +
+		"restored afterwards, because every Enqueue of the linked-list Queue allocates while nothing stays live); " + ruleWrap + "non-trivial = at least 2^16 rounds",
 	Enum: func(shard, shards int, tier string, yield func(WCase) bool) {
 		if tier != "thorough" {
 			return
 		}
-		cases := []WCase{{Kind: "queue", Window: 2, Rounds: 1<<32 + 1<<20}, {Kind: "stack", Window: 2, Rounds: 1<<32 + 1<<20}}
+		cases := []WCase{{Kind: "queue", Window: 2, Rounds: 1<<32 + 1<<20, GCPercent: 1600}, {Kind: "stack", Window: 2, Rounds: 1<<32 + 1<<20}}
 		for i, c := range cases {
 			if shards > 1 && i%shards != shard {
 				continue
